@@ -36,8 +36,26 @@ pub(crate) fn apply_file_system_operations(
     artifacts: &[ArtifactPathAndContent],
 ) -> LocationFreeDiagnosticResult<usize> {
     let mut count = 0;
+    #[cfg(isographlabs_isograph_verif)]
+    let mut verif_operation_index = 0;
 
     for operation in operations {
+        #[cfg(isographlabs_isograph_verif)]
+        {
+            let index = verif_operation_index;
+            verif_operation_index += 1;
+            match crate::verif_hooks::fs_fault_point(index, operation, artifacts) {
+                crate::verif_hooks::FsFault::Proceed => {}
+                crate::verif_hooks::FsFault::Handled => continue,
+                crate::verif_hooks::FsFault::Fail(e) => {
+                    return Err(unable_to_do_something_at_path_diagnostic(
+                        &PathBuf::new(),
+                        &e.to_string(),
+                        "apply file system operation (injected fault)",
+                    ));
+                }
+            }
+        }
         match operation {
             FileSystemOperation::DeleteDirectory(path) => {
                 if path.exists() {
